@@ -57,3 +57,14 @@ Fixpoint walk_bad (i : Z) (ks : list walk_case) : list Z :=
   | k :: rest => if walk_ok k then walk_bad (i + 1) rest else i :: walk_bad (i + 1) rest
   end.
 Definition walk_model (k : walk_case) := let '(D, start, ln, _) := k in walk D start ln.
+
+(* ---- torch framing (C14) ---- *)
+From Verif Require Import Stft.Torch.
+Definition torch_case := (cfg * Z * list (list Z))%type.   (* cfg, N (signal 0..N-1), observed frames *)
+Definition torch_ok (k : torch_case) : bool :=
+  let '(c, n, obs) := k in frames_eqb (torch_frames c (range 0 n)) obs.
+Fixpoint torch_bad (i : Z) (ks : list torch_case) : list Z :=
+  match ks with
+  | [] => []
+  | k :: rest => if torch_ok k then torch_bad (i + 1) rest else i :: torch_bad (i + 1) rest
+  end.
